@@ -68,15 +68,31 @@ find_pattern(const uint8_t * b, size_t n)
 	return (-1);
 }
 
+/* release a harness-owned block (possibly allocated through the wrapped malloc) */
+static void
+h_free(void * p)
+{
+	int i;
+
+	if (p != NULL)
+		for (i = 0; i < NTRACK; i++)
+			if (track[i].p == p) track[i].p = NULL;
+	__real_free(p);
+}
+
 void *
 __wrap_malloc(size_t n)
 {
 	void * p = __real_malloc(n);
 	int i;
 
-	if (p != NULL && watching)
+	if (p != NULL && watching) {
+		/* an address can be reused after a block was released behind our back: one entry per address */
+		for (i = 0; i < NTRACK; i++)
+			if (track[i].p == p) { track[i].n = n; return (p); }
 		for (i = 0; i < NTRACK; i++)
 			if (track[i].p == NULL) { track[i].p = p; track[i].n = n; break; }
+	}
 	return (p);
 }
 
@@ -235,21 +251,21 @@ main(void)
 			if (strcmp(hc_tok[1], "sha256") == 0) {
 				SHA256_CTX * c = __real_malloc(sizeof(*c));
 				SHA256_Init(c);
-				for (i = 2; i < hc_ntok; i++) { b = hc_unhex(hc_tok[i], &len); SHA256_Update(c, b, len); __real_free(b); }
+				for (i = 2; i < hc_ntok; i++) { b = hc_unhex(hc_tok[i], &len); SHA256_Update(c, b, len); h_free(b); }
 				SHA256_Final(dg, c);
-				ok = allzero(c, sizeof(*c)); __real_free(c);
+				ok = allzero(c, sizeof(*c)); h_free(c);
 			} else if (strcmp(hc_tok[1], "sha1") == 0) {
 				SHA1_CTX * c = __real_malloc(sizeof(*c));
 				SHA1_Init(c);
-				for (i = 2; i < hc_ntok; i++) { b = hc_unhex(hc_tok[i], &len); SHA1_Update(c, b, len); __real_free(b); }
+				for (i = 2; i < hc_ntok; i++) { b = hc_unhex(hc_tok[i], &len); SHA1_Update(c, b, len); h_free(b); }
 				SHA1_Final(dg, c);
-				ok = allzero(c, sizeof(*c)); __real_free(c);
+				ok = allzero(c, sizeof(*c)); h_free(c);
 			} else {
 				MD5_CTX * c = __real_malloc(sizeof(*c));
 				MD5_Init(c);
-				for (i = 2; i < hc_ntok; i++) { b = hc_unhex(hc_tok[i], &len); MD5_Update(c, b, len); __real_free(b); }
+				for (i = 2; i < hc_ntok; i++) { b = hc_unhex(hc_tok[i], &len); MD5_Update(c, b, len); h_free(b); }
 				MD5_Final(dg, c);
-				ok = allzero(c, sizeof(*c)); __real_free(c);
+				ok = allzero(c, sizeof(*c)); h_free(c);
 			}
 			printf(ok ? "ctxzero" : "ctxNONZERO");
 		} else if (strcmp(hc_tok[0], "hmac") == 0 && hc_ntok >= 3) {
@@ -262,23 +278,23 @@ main(void)
 			if (strcmp(hc_tok[1], "sha256") == 0) {
 				HMAC_SHA256_CTX * c = __real_malloc(sizeof(*c));
 				HMAC_SHA256_Init(c, k, klen);
-				for (i = 3; i < hc_ntok; i++) { b = hc_unhex(hc_tok[i], &len); HMAC_SHA256_Update(c, b, len); __real_free(b); }
+				for (i = 3; i < hc_ntok; i++) { b = hc_unhex(hc_tok[i], &len); HMAC_SHA256_Update(c, b, len); h_free(b); }
 				HMAC_SHA256_Final(dg, c);
-				ok = allzero(c, sizeof(*c)); __real_free(c);
+				ok = allzero(c, sizeof(*c)); h_free(c);
 			} else if (strcmp(hc_tok[1], "sha1") == 0) {
 				HMAC_SHA1_CTX * c = __real_malloc(sizeof(*c));
 				HMAC_SHA1_Init(c, k, klen);
-				for (i = 3; i < hc_ntok; i++) { b = hc_unhex(hc_tok[i], &len); HMAC_SHA1_Update(c, b, len); __real_free(b); }
+				for (i = 3; i < hc_ntok; i++) { b = hc_unhex(hc_tok[i], &len); HMAC_SHA1_Update(c, b, len); h_free(b); }
 				HMAC_SHA1_Final(dg, c);
-				ok = allzero(c, sizeof(*c)); __real_free(c);
+				ok = allzero(c, sizeof(*c)); h_free(c);
 			} else {
 				HMAC_MD5_CTX * c = __real_malloc(sizeof(*c));
 				HMAC_MD5_Init(c, k, klen);
-				for (i = 3; i < hc_ntok; i++) { b = hc_unhex(hc_tok[i], &len); HMAC_MD5_Update(c, b, len); __real_free(b); }
+				for (i = 3; i < hc_ntok; i++) { b = hc_unhex(hc_tok[i], &len); HMAC_MD5_Update(c, b, len); h_free(b); }
 				HMAC_MD5_Final(dg, c);
-				ok = allzero(c, sizeof(*c)); __real_free(c);
+				ok = allzero(c, sizeof(*c)); h_free(c);
 			}
-			__real_free(k);
+			h_free(k);
 			printf(ok ? "ctxzero" : "ctxNONZERO");
 		} else if (hc_is("aeskey", 1)) {
 			/* expand + free: the freed block must be all zero */
@@ -289,7 +305,7 @@ main(void)
 			K = crypto_aes_key_expand(k, klen);
 			if (K != NULL) crypto_aes_key_free(K);
 			watching = 0;
-			__real_free(k);
+			h_free(k);
 			printf("freed%s | checked=%d", verdict[0] ? verdict : " zero", nfrees_checked);
 		} else if (strcmp(hc_tok[0], "aesctr") == 0 && hc_ntok >= 4) {
 			/* aesctr <key> <nonce> <reinit 0|1> <chunk>... : stream object zero at free */
@@ -306,12 +322,12 @@ main(void)
 				b = hc_unhex(hc_tok[i], &len); o = __real_malloc(len + 1);
 				crypto_aesctr_stream(S, b, o, len);
 				if (reinit && i == 4) crypto_aesctr_init2(S, K, nonce + 1);
-				__real_free(b); __real_free(o);
+				h_free(b); h_free(o);
 			}
 			crypto_aesctr_free(S);
 			crypto_aes_key_free(K);
 			watching = 0;
-			__real_free(k);
+			h_free(k);
 			printf("freed%s | checked=%d", verdict[0] ? verdict : " zero", nfrees_checked);
 		} else if (strcmp(hc_tok[0], "dh") == 0 && hc_ntok == 5) {
 			/* dh <pub|-> <priv32> <blinding32|FAIL> <failat k|0> */
@@ -334,7 +350,7 @@ main(void)
 			}
 			watching = 0;
 			printf("clean%s | rc=%d allocs=%ld checked=%d", verdict, rc, ossl_allocs, nfrees_checked);
-			__real_free(priv); __real_free(bl); __real_free(y);
+			h_free(priv); h_free(bl); h_free(y);
 		} else if (hc_is("readkeys", 2)) {
 			/* readkeys <secret hex> <file content hex> */
 			size_t slen, flen; uint8_t * sec = hc_unhex(hc_tok[1], &slen), * fc = hc_unhex(hc_tok[2], &flen);
@@ -353,10 +369,10 @@ main(void)
 			unlink(tmpl);
 			if (rc == 0) {
 				/* success: the caller owns the strings */
-				__real_free(id); __real_free(ks);
+				h_free(id); h_free(ks);
 			}
 			printf("clean%s | rc=%d checked=%d", verdict, rc, nfrees_checked);
-			__real_free(sec); __real_free(fc);
+			h_free(sec); h_free(fc);
 		} else {
 			printf("bad-op");
 		}
